@@ -88,11 +88,13 @@ class Desc:
     contribs: list[Contribution] = field(default_factory=list)
     removals: list[Contribution] = field(default_factory=list)
     unknown: list[str] = field(default_factory=list)
+    mispaired: list[str] = field(default_factory=list)  # zip(...) of streams that provably do not walk the same sequence in the same order
 
     def extend(self, other: "Desc") -> None:
         self.contribs += other.contribs
         self.removals += other.removals
         self.unknown += other.unknown
+        self.mispaired += other.mispaired
 
 
 def _is_empty_value(v: ast.AST) -> bool:
@@ -474,6 +476,11 @@ class Collections:
         if isinstance(e, ast.Subscript) and isinstance(e.slice, ast.Slice) and e.slice.lower is None and e.slice.upper is None and e.slice.step is None:
             return self._describe(e.value, depth - 1, busy)
         if isinstance(e, ast.Call):
+            if _call_name(e) == "zip" and len(e.args) >= 2 and not e.keywords and not any(isinstance(a_, ast.Starred) for a_ in e.args):
+                # the tuples a zip yields: one fresh name per stream, bound by the zip itself (taken apart when normalised)
+                names_ = [f"z{next(_fresh)}" for _ in e.args]
+                tgt_ = ast.Tuple(elts=[ast.Name(id=n_, ctx=ast.Store()) for n_ in names_], ctx=ast.Store())
+                return Desc([Contribution(ast.Tuple(elts=[ast.Name(id=n_, ctx=ast.Load()) for n_ in names_], ctx=ast.Load()), None, [Binder(tgt_, e, e)], [], node=e, how="zip")])
             ms = self._multiset_source(e)
             if ms is not None and ms[0] == "keys":
                 return self._describe(ms[1], depth - 1, busy) if parent(ms[1]) is not None else self._describe_copy(ms[1])  # the distinct elements
@@ -518,6 +525,8 @@ class Collections:
                 if isinstance(src, ast.Name) and parent(src) is not None:
                     x_ = fn.expand(src)
                     src = x_ if isinstance(x_, ast.Call) else src
+                while isinstance(src, ast.Call) and _call_name(src) in ("list", "tuple", "iter") and len(src.args) == 1 and not src.keywords:
+                    src = src.args[0]  # list(product(...)) kept in a local
                 if isinstance(src, ast.Call) and (_call_name(src) == "product" or fn.lib_name(src.func) == "itertools.product") and src.args and not src.keywords:
                     names = [f"e{next(_fresh)}" for _ in src.args]
                     elt = self.apply(e.args[0], [ast.Name(id=n_, ctx=ast.Load()) for n_ in names])
@@ -948,12 +957,13 @@ class Collections:
     # ------------------------------------------------------------------ normalisation
     def normalise(self, d: Desc, depth: int = 8) -> Desc:
         """Composes locally built sources away: afterwards every binder ranges over a root (also for removal events)."""
-        out = Desc(unknown=list(d.unknown))
+        out = Desc(unknown=list(d.unknown), mispaired=list(d.mispaired))
         self._normalise_into(list(d.contribs), out, out.contribs, depth)
         rem = Desc()
         self._normalise_into([r for r in d.removals if r.binders], rem, rem.contribs, depth)
         out.removals = [r for r in d.removals if not r.binders] + rem.contribs + out.removals + rem.removals
         out.unknown += rem.unknown
+        out.mispaired += rem.mispaired
         return out
 
     def _normalise_into(self, work: list, out: Desc, sink: list, depth: int) -> None:
@@ -1016,9 +1026,19 @@ class Collections:
                 nc = Contribution(sbp(c.elt), sbp(c.value), c.binders[:idx] + nb + later, [(sbp(x), p_) for x, p_ in c.conds], c.context, c.node, c.kind, c.how, c.acc, c.nlocal, dict(c.ren))
                 work.insert(0, nc)
                 continue
-            if isinstance(src, ast.Call) and _call_name(src) == "zip" and isinstance(b.target, (ast.Tuple, ast.List)) and len(b.target.elts) == len(src.args) >= 2 and not src.keywords and all(isinstance(t_, ast.Name) for t_ in b.target.elts):
+            if isinstance(src, ast.Call) and _call_name(src) == "zip" and isinstance(b.target, (ast.Tuple, ast.List)) and len(b.target.elts) == len(src.args) >= 2 and not src.keywords and all(isinstance(t_, ast.Name) or (isinstance(t_, (ast.Tuple, ast.List)) and all(isinstance(x_, ast.Name) for x_ in t_.elts)) for t_ in b.target.elts):
                 # streams over the same sources, consumed in lockstep:  zip((f(k) for k in K), (g(k) for k in K))  ==  ((f(k), g(k)) for k in K)
-                subs = [self.normalise(self._describe_copy(a_), depth - 1) for a_ in src.args]
+                # positional pairing needs more than equal element sets: every stream must walk the very same sequence in the
+                # same order (the same unchanged local / expression, through order-preserving wrappers only)
+                bases = [self._stream_base(a_) for a_ in src.args]
+                if any(x_[0] == "reordered" for x_ in bases) and len({x_[1] for x_ in bases}) == 1:
+                    ro = next(x_ for x_ in bases if x_[0] == "reordered")
+                    out.mispaired.append(f"`{norm(src, 70)}` pairs elements by position, but one side walks `{ro[2]}`, which is re-ordered or filtered, and the other `{ro[1]}` as it is")
+                    continue
+                if len({(x_[0], x_[1]) for x_ in bases}) != 1 or bases[0][0] != "same":
+                    out.unknown.append(f"`{norm(src, 60)}`: the zipped streams are not recognised as walking the same sequence in the same order")
+                    continue
+                subs = [self.normalise(self._stream_desc(a_), depth - 1) for a_ in src.args]
                 ok_ = all(len(d_.contribs) == 1 and not d_.unknown and not d_.removals and not d_.contribs[0].conds and d_.contribs[0].value is None for d_ in subs)
                 if ok_:
                     first = subs[0].contribs[0]
@@ -1031,7 +1051,15 @@ class Collections:
                     for t_, d_ in zip(b.target.elts, subs):
                         c2 = d_.contribs[0]
                         ren2 = {n2: ast.Name(id=n1, ctx=ast.Load()) for b1, b2 in zip(first.binders, c2.binders) for n1, n2 in zip(b1.names, b2.names)}
-                        env[t_.id] = substitute(copy_node(c2.elt, self.fi), ren2)
+                        val_ = substitute(copy_node(c2.elt, self.fi), ren2)
+                        if isinstance(t_, ast.Name):
+                            env[t_.id] = val_
+                        elif isinstance(val_, (ast.Tuple, ast.List)) and len(val_.elts) == len(t_.elts):
+                            for x_, v_ in zip(t_.elts, val_.elts):
+                                env[x_.id] = v_
+                        else:
+                            for k_, x_ in enumerate(t_.elts):
+                                env[x_.id] = ast.Subscript(value=val_, slice=ast.Constant(value=k_), ctx=ast.Load())
 
                     def sbz(x):
                         return self.fn.simplify(splice_starred(substitute(copy_node(x, self.fi), env))) if x is not None else None
@@ -1120,6 +1148,57 @@ class Collections:
                     nc_ren,
                 )
                 work.insert(0, nc)
+
+    def _stream_base(self, a: ast.AST, hops: int = 0) -> tuple:
+        """("same", key) - the sequence object a zipped stream walks, through order-preserving wrappers (map / starmap / a
+        comprehension without `if` / list / tuple / iter); ("reordered", key, text) - walked through sorted / reversed / set /
+        filter / a comprehension with `if`; ("other", text)."""
+        fn = self.fn
+        if isinstance(a, ast.Name):
+            if a.id in fn.mutated:
+                return ("other", a.id + " (changed in place)")
+            ds = fn.reaching(a.id, a) if (parent(a) is not None or hasattr(a, "_at")) else []
+            if len(ds) == 1 and ds[0].kind == "assign" and hops < 3:
+                v = ds[0].value
+                if isinstance(v, (ast.GeneratorExp, ast.ListComp)) or (isinstance(v, ast.Call) and (_call_name(v) in ("map", "filter", "sorted", "reversed", "starmap") or fn.lib_name(v.func) in ("itertools.starmap",))):
+                    return self._stream_base(v, hops + 1)  # a lazily / eagerly derived stream kept in a local
+            return ("same", a.id)
+        if isinstance(a, ast.Call) and not a.keywords:
+            n = _call_name(a)
+            if n in ("map",) and len(a.args) == 2:
+                return self._stream_base(a.args[1], hops)
+            if (n == "starmap" or fn.lib_name(a.func) == "itertools.starmap") and len(a.args) == 2:
+                return self._stream_base(a.args[1], hops)
+            if n in ("list", "tuple", "iter") and len(a.args) == 1:
+                return self._stream_base(a.args[0], hops)
+            if n in ("sorted", "reversed", "set", "frozenset") and len(a.args) >= 1 or (n == "filter" and len(a.args) == 2):
+                inner = self._stream_base(a.args[-1] if n == "filter" else a.args[0], hops)
+                return ("reordered", inner[1], norm(a, 50)) if inner[0] in ("same", "reordered") else inner
+        if isinstance(a, ast.Call) and _call_name(a) == "sorted" and a.args:
+            inner = self._stream_base(a.args[0], hops)
+            return ("reordered", inner[1], norm(a, 50)) if inner[0] in ("same", "reordered") else inner
+        if isinstance(a, (ast.GeneratorExp, ast.ListComp)) and len(a.generators) == 1:
+            inner = self._stream_base(a.generators[0].iter, hops)
+            if a.generators[0].ifs and inner[0] in ("same", "reordered"):
+                return ("reordered", inner[1], norm(a, 50))
+            return inner
+        return ("other", norm(a, 50))
+
+    def _stream_desc(self, a: ast.AST) -> Desc:
+        """Description of one zipped stream; a (local bound once to a) product(...) of collections is spelled out as one binder
+        per factor, so that it lines up with `starmap(f, <the same product>)`."""
+        fn = self.fn
+        x = a
+        if isinstance(x, ast.Name) and (parent(x) is not None or hasattr(x, "_at")) and x.id not in fn.mutated:
+            ds = fn.reaching(x.id, x)
+            if len(ds) == 1 and ds[0].kind == "assign" and ds[0].value is not None:
+                x = ds[0].value
+        while isinstance(x, ast.Call) and _call_name(x) in ("list", "tuple", "iter") and len(x.args) == 1:
+            x = x.args[0]
+        if isinstance(x, ast.Call) and (_call_name(x) == "product" or fn.lib_name(x.func) == "itertools.product") and x.args and not x.keywords and not any(isinstance(y, ast.Starred) for y in x.args):
+            names = [f"e{next(_fresh)}" for _ in x.args]
+            return Desc([Contribution(ast.Tuple(elts=[ast.Name(id=n_, ctx=ast.Load()) for n_ in names], ctx=ast.Load()), None, [Binder(ast.Name(id=n_, ctx=ast.Store()), s_, x) for n_, s_ in zip(names, x.args)], [], node=x, how="product")])
+        return self._describe_copy(a)
 
     def _multiset_source(self, src: ast.AST) -> tuple[str, ast.AST] | None:
         """("keys" | "items", X) if `src` iterates the distinct elements of X: Counter(X), dict.fromkeys(X), their .keys() /
